@@ -336,7 +336,7 @@ where
 
 fn main() {
     let args = Args::parse("C11");
-    let max_len: usize = args.extra_u64("max-len").map(|v| v as usize).unwrap_or(40);
+    let max_len: usize = args.extra_u64("max-len").map(|v| v as usize).unwrap_or(if args.thorough() { 64 } else { 40 });
     // (a) exhaustive part, sharded by length; (b) random part. Case ids: (a) = length,
     // (b) = 10000 + index (so that a single recorded case can be replayed with --only)
     let run_a = args.only.map_or(true, |c| c < 10_000);
@@ -357,7 +357,7 @@ fn main() {
     } else {
         Ev::new()
     };
-    let n = args.budget(1200, 40000);
+    let n = args.budget(1200, 200000);
     let mut args_b = args.clone();
     args_b.only = args.only.map(|c| c - 10_000);
     let ev_b = if run_b {
